@@ -290,10 +290,14 @@ def kde_multivariate(events_x, events_y, xout=None, yout=None, bw=None):
 
     # shape (N, 2): one row per position (a (2, N) array is ambiguous for
     # N=2 and would be interpreted as two rows of observations)
-    positions = np.column_stack([xout.flatten(), yout.flatten()])
-    estimator_ly = KDEMultivariate(data=[events_x.flatten(),
-                                         events_y.flatten()],
-                                   var_type='cc', bw=bw)
+    # float data: unsigned integer features (e.g. fl1_max) wrap around in
+    # the kernel computation `-(Xi - x)**2`
+    positions = np.column_stack([xout.flatten(),
+                                 yout.flatten()]).astype(float)
+    estimator_ly = KDEMultivariate(
+        data=[np.asarray(events_x, dtype=float).flatten(),
+              np.asarray(events_y, dtype=float).flatten()],
+        var_type='cc', bw=bw)
 
     density = estimator_ly.pdf(positions)
     return density.reshape(xout.shape)
